@@ -45,8 +45,8 @@ claim("C09", "other",
       "The repaint after an SZX load that stores the border directly is judged under C14.",
       "DESIGN.md §3 C09")
 claim("C10", "other",
-      "decision table of the trap condition; path-sensitive interpretation of fast_load_tap with block/memory/RET accesses as effects, each completing exit compared with the documented LD-BYTES algorithm; inductive invariant of the TAP block reader with a ghost file position, decided by linear-arithmetic entailment (Fourier-Motzkin) over path facts",
-      "Trap condition and serving guard; one block per request; no-block exit leaves all registers untouched; every completing exit performs one RET with IX/DE/carry and the LOAD stores / VERIFY reads the documented algorithm gives for the same decisions; block framing: a header is read only when exactly the previous block's bytes have been taken from the asset, on every path of every writer of the reader's window (T-INV).",
+      "decision table of the trap condition; path-sensitive interpretation of fast_load_tap with block/memory/RET accesses as effects, each completing exit compared with the documented LD-BYTES algorithm; inductive invariant of the TAP block reader with a ghost file position, decided by linear-arithmetic entailment (Fourier-Motzkin) over path facts; mod-ref (mod set) of the fast-load switch",
+      "Trap condition and serving guard; one block per request; no-block exit leaves all registers untouched; every completing exit performs one RET with IX/DE/carry and the LOAD stores / VERIFY reads the documented algorithm gives for the same decisions; block framing: a header is read only when exactly the previous block's bytes have been taken from the asset, on every path of every writer of the reader's window (T-INV). set_fast_load changes nothing but its flag.",
       "Not decided: equality with the ROM routine for all blocks/requests beyond the explored loop depth (the loop body is the same each iteration, but no inductive argument is made).",
       "DESIGN.md §3 C10")
 claim("C11", "proof",
@@ -55,13 +55,13 @@ claim("C11", "proof",
       "Equivalence of real-time loading with fast loading (whole program) is not claimed.",
       "DESIGN.md §3 C11")
 claim("C12", "other",
-      "algebraic laws checked on composed method summaries (stop, play, rewind, end-of-tape path) over all 8x8 state/saved-state combinations; mod-ref of stop/play",
-      "stop;stop==stop, stop;play resumes exactly, play;play==play, end of tape and rewind-while-stopped forget the saved state, stop/play touch only the two state fields, API forwards.",
+      "algebraic laws checked on composed method summaries (stop, play, rewind, end-of-tape path) over all 8x8 state/saved-state combinations; mod-ref of stop/play; mod set of the deck commands over the call graph",
+      "stop;stop==stop, stop;play resumes exactly, play;play==play, end of tape and rewind-while-stopped forget the saved state, stop/play touch only the two state fields, API forwards. play/stop/rewind through the API change nothing outside the deck and the asset behind it.",
       "Not decided: that the concatenated waveform decodes to the blocks (C11 + data).",
       "DESIGN.md §3 C12")
 claim("C17", "other",
-      "constant propagation over every enum value (key matrix, compound, joystick tables) + bit-level term equivalence of the event handlers + mod-ref per matrix",
-      "40-key matrix, 7 compound keys, 2x5 Sinclair controls, 8 Kempston bits, 4 mouse buttons, wheel and motion arithmetic, source separation of the three matrices, CAPS SHIFT release rule.",
+      "constant propagation over every enum value (key matrix, compound, joystick tables) + bit-level term equivalence of the event handlers + mod-ref per matrix; devices located by role (state changed by the public senders); mod set of every input method",
+      "40-key matrix, 7 compound keys, 2x5 Sinclair controls, 8 Kempston bits, 4 mouse buttons, wheel and motion arithmetic, source separation of the three matrices, CAPS SHIFT release rule. Every send_* method changes only the device it feeds.",
       "One open known finding (Sinclair joystick 2 'down'); the row AND across matrices is decided under C07.",
       "DESIGN.md §3 C17")
 claim("C18", "other",
@@ -80,8 +80,8 @@ claim("C20", "other",
       "Not decided: the total sample count (no induction over play's loop).",
       "DESIGN.md §3 C20")
 claim("C16", "other",
-      "intraprocedural taint of stopwatch readings; mod-ref isolation of sound-generation state over the resolved call graph; who-may-call on LoadableAsset::read; path-sensitive check of read_exact; per-step effect pairing of emulate_frames (events taken from the controller are acted upon before the step ends); absence scan with a positive control",
-      "Stopwatch readings reach only the limit comparison and EmulationInfo.duration; no field written by sound generation is read outside its call closure; AY port-visible registers are not written by generation; read() only behind read_exact/adapters and read_exact tolerates short reads; a breakpoint stop never drops another event taken in the same step (stop-and-resume transparency); no nondeterministic API outside the host stopwatch.",
+      "intraprocedural taint of stopwatch readings; mod-ref isolation of sound-generation state over the resolved call graph; who-may-call on LoadableAsset::read; path-sensitive check of read_exact; per-step effect pairing of emulate_frames (events taken from the controller are acted upon before the step ends); absence scan with a positive control; mod set of the slicing controls (set_speed / set_sound / next_audio_sample) over the call graph",
+      "Stopwatch readings reach only the limit comparison and EmulationInfo.duration; no field written by sound generation is read outside its call closure; AY port-visible registers are not written by generation; read() only behind read_exact/adapters and read_exact tolerates short reads; a breakpoint stop never drops another event taken in the same step (stop-and-resume transparency); no nondeterministic API outside the host stopwatch. The slicing controls change only their own bookkeeping (no device object is written or re-created by them).",
       "Not decided: bit-identical audio under different drain patterns (excluded by the statement). The call graph over-approximates unresolved trait calls with generic Self.",
       "DESIGN.md §3 C16")
 claim("C13", "other",
